@@ -226,7 +226,10 @@ class Pipeline:
         I = self.I
         I.steps = 0
         f = self.repo.find_class
-        coros = [I.new(f("SsbCoroutine"), i, n) for i, n in enumerate(named_coroutines) if isinstance(n, str)]
+        if named_coroutines and all(isinstance(n, AObj) for n in named_coroutines):
+            coros = list(named_coroutines)  # already SsbCoroutine objects (as the decompile CLI builds them)
+        else:
+            coros = [I.new(f("SsbCoroutine"), i, n) for i, n in enumerate(named_coroutines) if isinstance(n, str)]
         dmc = I.new(f("DungeonModeConstants"), "DMODE_CLOSED", "DMODE_OPEN", "DMODE_REQUEST", "DMODE_OPEN_AND_REQUEST")
         d = I.new(f("ExplorerScriptSsbDecompiler"), routine_infos, routine_ops, coros, perf, dmc)
         out = I.call_func(self.repo.find_method(d.cls, "convert"), [d], {})  # type: ignore[arg-type]
